@@ -3,7 +3,7 @@
    Spec:  coq/Spec/MapStreamSpec.v. *)
 From Coq Require Import ZArith List Lia.
 From EV Require Import Res Arr MapStream MapStreamSpec MapStreamBase MapStreamFixed MapStreamRefuted MapHelpers
-  MapIndexedBase MapIndexedKernel MapIndexedDriver.
+  MapIndexedBase MapIndexedKernel MapIndexedDriver MapIndexedHelper.
 Import ListNotations.
 Open Scope Z_scope.
 
@@ -60,6 +60,29 @@ Theorem safe_map_values_correct :
     = Ok (map_spec (match ev with Some e => e | None => empty end) data inv m).
 Proof. exact @safe_map_values_correct_gen. Qed.
 Print Assumptions safe_map_values_correct.
+
+Theorem safe_map_indexed_values_correct :
+  forall (d_idx d_val:list Z) (inv:Z) (m ev:list Z),
+    wf_indexed d_idx d_val -> in_range_map (len d_idx - 1) inv m ->
+    safe_map_indexed_values d_idx d_val m (filter_of inv m) ev
+    = Ok (let strs := map_spec ev (decode d_idx d_val) inv m in (offsets_of strs, concat strs)).
+Proof. exact safe_map_indexed_values_correct_top. Qed.
+Print Assumptions safe_map_indexed_values_correct.
+
+Theorem indexed_stream_equals_helper :   (* streaming and non-streaming indexed mapping agree *)
+  forall (d_idx d_val:list Z) (inv:Z) (m:list Z) (cs vf:Z) (fuel:nat),
+    wf_indexed d_idx d_val -> 1 <= cs -> 0 <= vf ->
+    valid_map (len d_idx - 1) inv m -> entries_fit d_idx d_val inv m (cs * vf) ->
+    (fuel >= length m + length d_idx + 1)%nat ->
+    ordered_map_valid_indexed_stream fuel Fixed d_idx d_val m inv cs vf
+    = safe_map_indexed_values d_idx d_val m (filter_of inv m) [].
+Proof.
+  intros d_idx d_val inv m cs vf fuel Hwf Hcs Hvf Hv Hfit Hf.
+  rewrite (indexed_stream_correct d_idx d_val inv m cs vf fuel Hwf Hcs Hvf Hv Hfit Hf).
+  rewrite (safe_map_indexed_values_correct d_idx d_val inv m [] Hwf (valid_map_in_range _ _ _ Hv)).
+  reflexivity.
+Qed.
+Print Assumptions indexed_stream_equals_helper.
 
 Theorem stream_equals_helpers :   (* "the non-streaming mapping helpers give the same answer" *)
   forall (A:Type) (zfill empty:A) (data:list A) (inv:Z) (m:list Z) (cs:Z) (fuel:nat),
